@@ -4,6 +4,8 @@ package hashgraph
 
 import (
 	"sort"
+
+	"github.com/mosaicnetworks/babble/src/peers"
 )
 
 // This file only exists under the "verif" build tag. It holds the hook
@@ -105,6 +107,38 @@ func simUpdateAncestors(h *Hashgraph, event *Event) (bool, error) {
 		}
 	}
 	return true, nil
+}
+
+// simResetStore fixes the order in which InmemStore.Reset replays the
+// peer-sets of the Frame (a map): Reset is re-entered with a copy of the Frame
+// that holds only the first peer-set of the order chosen by the simulator, the
+// remaining ones are then set in that order, and the Frame itself is saved.
+var simInReset bool
+
+func simResetStore(s *InmemStore, frame *Frame) (bool, error) {
+	if SimPermute == nil || simInReset || len(frame.PeerSets) <= 1 {
+		return false, nil
+	}
+	rounds := make([]int, 0, len(frame.PeerSets))
+	for r := range frame.PeerSets {
+		rounds = append(rounds, r)
+	}
+	sort.Ints(rounds)
+	perm := SimPermute("InmemStore.Reset", len(rounds))
+	first := *frame
+	first.PeerSets = map[int][]*peers.Peer{rounds[perm[0]]: frame.PeerSets[rounds[perm[0]]]}
+	simInReset = true
+	err := s.Reset(&first)
+	simInReset = false
+	if err != nil {
+		return true, err
+	}
+	for _, p := range perm[1:] {
+		if err := s.SetPeerSet(rounds[p], peers.NewPeerSet(frame.PeerSets[rounds[p]])); err != nil {
+			return true, err
+		}
+	}
+	return true, s.SetFrame(frame)
 }
 
 func simStorePoint(s *BadgerStore, kind, phase string) error {
